@@ -276,6 +276,8 @@ class RZILTransformer(Transformer):
             return self.add_op(
                 Assignment("set_return_val", AssignmentType.ASSIGN, ret_val, src)
             )
+        if isinstance(items[0], Token) and items[0].type in ["GOTO", "CONTINUE", "BREAK"]:
+            raise NotImplementedError(f"'{items[0]}' statements are not supported.")
         return items  # Pass them upwards
 
     def relational_expr(self, items):
